@@ -133,7 +133,6 @@ Section ExecCount.
       { destruct (hk m =? 1)%nat; [exact Ha|]. apply (IH PCheckHalt s dp Ha). }
       intros s1 K1.
       pose proof (EC_enq_async (next_hop c (mdest m)) m (scnt s1 + 1) dp s1 K1) as K3.
-      destruct (inprq (enqueue c (next_hop c (mdest m)) m (set_scnt (scnt s1 + 1) s1))); [exact K3|].
       apply (IH PFlushToCap _ dp K3).
     - (* PQueueBytes *)
       intros dp Ha. cbn [run]. exact (EC_enq_async d m (scnt s + 1) dp s Ha).
@@ -141,7 +140,7 @@ Section ExecCount.
       intros dp Ha. cbn [run].
       eapply resC_bind with (P1 := EC dp); [apply (IH PCheckHalt s dp Ha)|]. intros s1 K1.
       eapply resC_bind with (P1 := EC dp); [apply (IH (PQueueMany _ _) s1 dp K1)|]. intros s2 K2.
-      destruct (inprq s2); [exact K2|apply (IH PFlushToCap s2 dp K2)].
+      apply (IH PFlushToCap s2 dp K2).
     - (* PMcast *)
       intros dp Ha. destruct ds as [|d ds]; cbn [run]; [exact Ha|].
       eapply resC_bind with (P1 := EC dp); [apply (IH (PAsync _) s dp Ha)|].
